@@ -47,7 +47,14 @@ Consume ==
                      [] c = "PassThroughUnchanged" -> (hist'.mode = 1 => stats' = NoStats /\ OutEq(lastOut', r.out))
                      [] c = "TypeMonotone" -> (Calculated' => hist'.lastTy >= hist.lastTy)
                      [] c = "ValueIsOpsOverElapsed" -> (Calculated' => ValueIsOpsOverElapsed(stats, e.batch, lastOut', stats'.start))
-                     [] c = "Unit" -> \A i \in 1..Len(e.st.out) : e.st.out[i].unit = e.batch[1].unit \o "/s"]
+                     \* the unit of a value is '<ops unit>/s' of a sample it is reported at (samples of this call or carried over);
+                     \* (a failed request reports 0 "ops" whatever the operation's unit: units may be mixed within a task)
+                     [] c = "Unit" -> \A i \in 1..Len(e.st.out) :
+                            LET cands == {e.batch[k] : k \in 1..Len(e.batch)} \cup
+                                         (IF stats.exists THEN {stats.unproc[k] : k \in 1..Len(stats.unproc)} ELSE {})
+                                at == {x \in cands : x.abs = e.st.out[i].abs}
+                            IN IF at # {} THEN \E x \in at : e.st.out[i].unit = x.unit \o "/s"
+                               ELSE \E x \in cands : e.st.out[i].unit = x.unit \o "/s"]
                  l1 == {c \in L1Clauses : ~holds[c]}
                  l2 == /\ r.ts = e.st.stats
                        /\ OutEq(r.out, e.st.out)
